@@ -132,7 +132,7 @@ func c18Base(r *rand.Rand) string {
 		return fmt.Sprintf("v%d.%d.%s", r.IntN(3), r.IntN(20), gen.Digits(r, 1+r.IntN(40)))
 	case 1: // all-nines patch: the increment needs one more digit
 		v := fmt.Sprintf("v%d.%d.%s", r.IntN(3), r.IntN(20), strings.Repeat("9", 1+r.IntN(40)))
-		return v + gen.Pick(r, []string{"", "", "+incompatible", "+meta", "-rc1"})
+		return v + gen.Pick(r, []string{"", "", "+incompatible", "+meta", "-rc1", "+" + gen.BuildMeta(r)})
 	case 2: // patch that ends in nines / zeros (carry and borrow chains)
 		d := gen.Digits(r, 1+r.IntN(20))
 		tail := strings.Repeat(gen.Pick(r, []string{"9", "0"}), 1+r.IntN(20))
@@ -151,7 +151,7 @@ func c18Base(r *rand.Rand) string {
 	case 4: // prerelease edge shapes
 		return fmt.Sprintf("v%d.%d.%d-", r.IntN(3), r.IntN(3), r.IntN(3)) + gen.Pick(r, []string{"0", "0.0", "1", "a", "-", "--", "0-", "rc.0", "x.0.0", "0.a",
 			"20200101000000", "20200101000000-abcdef123456", "0.20200101000000", "alpha.1.beta-2", "99999999999999999999"}) +
-			gen.Pick(r, []string{"", "", "+incompatible", "+meta.1"})
+			gen.Pick(r, []string{"", "", "+incompatible", "+meta.1", "+" + gen.BuildMeta(r)})
 	}
 	return gen.ValidVersion(r, true)
 }
